@@ -100,6 +100,15 @@ def generate(seed, run, tier):
             if o.get('abort') and rs.chance(0.6):
                 ops2.append({'op': rs.choice(['read_cost', 'read_cost', 'read_summary'])})
         ops = ops2
+    if sw.chance(0.06):
+        # observer storm: the same one or two observers are called at every op boundary (effects that need many calls)
+        kinds = [sched.gen_observer(cfg, rf, obs_enabled) for _ in range(rf.randint(1, 2))]
+        out = []
+        for o in ops:
+            out.append(dict(rf.choice(kinds), inject=True))
+            out.append(o)
+        out.append(dict(rf.choice(kinds), inject=True))
+        return {'cfg': cfg, 'ops': out, 'run_seed': mix(seed, ID, run, 'run')}
     n_obs = rf.randint(1, 5)
     burst = rf.chance(0.3)
     out = list(ops)
